@@ -48,10 +48,12 @@ CLAIMED["C04"] = ("Theorem C04_commute_sound (coq/Properties/C04.v): for all 36 
                   "with a refutation witness and reported as KNOWN-FINDING.", "DESIGN.md §4 C04")
 CLAIMED["C14"] = ("Theorems C14_* (coq/Properties/C14.v): iteration-engine programs of any length build node-locally well-formed "
                   "trees without placeholder nodes; the documented no-op calls (projection onto all columns, empty sort, "
-                  "transfer to the own engine) return the relation itself in every engine and with every option. For trees that "
-                  "involve the SQL engine and backtracking, well-formedness of every node is decided per run by evaluating the "
-                  "Coq predicate wf_reach on the real trees of random multi-engine programs (the model's build is compared too); "
-                  "a theorem for that part is not yet proved (partial).", "DESIGN.md §4 C14")
+                  "transfer to the own engine) return the relation itself in every engine and with every option; programs over "
+                  "several iteration engines with options and single-engine SQL programs build well-formed trees "
+                  "(C14_multi_engine_iteration_programs_well_formed, C14_sql_programs_well_formed), and programs mixing both engine "
+                  "kinds do within the scope of C03's program theorem. Beyond that scope (transfer options, projections with a "
+                  "preferred engine) well-formedness of every node is decided per run by evaluating the Coq predicate wf_reach on the "
+                  "real trees of random multi-engine programs (the model's build is compared too).", "DESIGN.md §4 C14")
 CLAIMED["C15"] = ("Theorems C15_* (coq/Properties/C15.v): Transfer.simplify returns a content-equal subtree, materializing a locked "
                   "relation adds nothing, backtracking stops at a locked node and _finish_apply keeps a locked target as operand. "
                   "Object identity of locked nodes across every factory call is checked on the real library per run.",
@@ -74,7 +76,10 @@ CLAIMED["C03"] = ("Theorems C03_backtrack_sound, C03_apply_with_options_sound, C
                   "engine, and require_preferred_engine refuses with EngineError when the operation cannot be placed there. Theorems "
                   "C03_join_backtrack_sound / C03_join_with_options_sound: the same for Relation.join (a PartialJoin moved upstream to the "
                   "transfer that left the operand's engine, or the target transferred, or the call refused), under the documented ColumnTag "
-                  "contract. Excluded: finding F2 (projection past a Deduplication, pinned by the suite; known finding), a SQL target joined "
+                  "contract. Theorem C03_programs_over_both_engine_kinds_denote_their_specification: whole programs of factory calls over "
+                  "any number of SQL and iteration engines (unary calls with any preferred-engine option, joins in one engine "
+                  "or across engines, chains, materializations, transfers) build trees that denote the program's specification and have "
+                  "the shape the call-by-call theorems require, so these compose. Excluded: finding F2 (projection past a Deduplication, pinned by the suite; known finding), a SQL target joined "
                   "without transfer to an operand elsewhere, and the transfer into an SQL engine after a failed backtracking attempt "
                   "(decided per run by the correspondence only). Every generated "
                   "program is built on the real library, processed by a real SQLite<->iteration Processor, executed and compared with the "
